@@ -18,6 +18,10 @@ func (x *Exec) doCall(call *ssa.CallCommon, fnv Value, args []Value, st *State, 
 	if bi, ok := call.Value.(*ssa.Builtin); ok {
 		return x.builtin(bi.Name(), call, args, st, pc)
 	}
+	if sf, ok := fnv.(*StubFnV); ok {
+		x.events = append(x.events, callEvent{sf.Name, pc})
+		return nil
+	}
 	var callee *ssa.Function
 	var bind []Value
 	if c := call.StaticCallee(); c != nil {
@@ -40,7 +44,24 @@ func fullName(fn *ssa.Function) string {
 	return fn.String()
 }
 
+// StubFnV is a function value of an external package that the engine only
+// records calls of (context.CancelFunc).
+type StubFnV struct{ Name string }
+
+type callEvent struct {
+	Name string
+	PC   *Term
+}
+
 func (x *Exec) callFn(callee *ssa.Function, bind []Value, args []Value, st *State, pc *Term) Value {
+	if c := x.ld.contractFor(callee); c != nil && c.Counts != "" && x.gobj != nil && x.inSpec == 0 {
+		n := x.ghostGet(st, c.Counts)
+		if n.S.K == 'b' {
+			x.ghostSet(st, c.Counts, x.b.Or(n, pc)) // "has been called"
+		} else {
+			x.ghostSet(st, c.Counts, x.b.Bin("bvadd", n, x.b.Ite(pc, x.b.Const(n.S.W, 1), x.b.Const(n.S.W, 0))))
+		}
+	}
 	if x.callHook != nil {
 		if r, ok := x.callHook(x, callee, args, st, pc); ok {
 			return r
@@ -356,6 +377,17 @@ func (x *Exec) stub(callee *ssa.Function, args []Value, st *State, pc *Term) (Va
 			sum = b.Bin("bvadd", sum, b.ZExt(64, b.Extract(k, k, t)))
 		}
 		return sum, true
+	case "context.WithCancel":
+		x.usedStub(fn)
+		x.seq++
+		id := fmt.Sprintf("ctx2#%d", x.seq)
+		return &TupleV{E: []Value{&IfaceV{Nil: b.False(), Opaque: id, T: callee.Signature.Results().At(0).Type()}, &StubFnV{Name: "cancel:" + id}}}, true
+	case "sync/atomic.LoadInt32":
+		x.usedStub(fn)
+		return b.Fresh("atomic_load", BV(32)), true // a shared cell: any value
+	case "sync/atomic.StoreInt32":
+		x.usedStub(fn)
+		return nil, true
 	case "reflect.DeepEqual":
 		// stub (assumption): on two map values DeepEqual is "both nil or both
 		// non-nil, same keys, equal values"
